@@ -446,3 +446,5 @@ def run(F, rep, tier):
                 n5 += 1
                 rep.check(wseq == rseq, "C06-R5", "%s:write-read-widths" % t, "%s: write_le writes %s, from_le reads %s" % (t, wseq, rseq), sample={"type": t, "widths": wseq})
     rep.floor("C06-R5", "constant codec obligations", n5, 10)
+    from rules.k2_targets import run_k2
+    run_k2(F, rep, "C06", "C06-R8")
